@@ -35,12 +35,12 @@ BOUNDARY = [r'^std::vector<cocls::scheduler::SchItem', r'^void std::push_heap<',
 LIBS = ['rt_core.c', 'rt_atomic_seq.c', 'model_mutex.c']     # lib/model_vec_heap.c and lib/model_promise.c are included by the spec (they need its macros)
 SPEC = ['C12/sch_spec.h', 'C12/h_sch.c']
 HEAP = dict(sch_compare_item=RX['compare_item'], sch_item_dtor=RX['item_dtor'])
-def unit(name, alias, roots, names=None, types=None, boundary=(), **kw):
+def unit(name, alias, roots, names=None, types=None, boundary=(), defines=(), **kw):
     nm = {alias: RX[name] if name in RX else roots[0]}
     nm.update(names or {})
     t = dict(TYPES); t.update(types or {})
     d = dict(name=name, driver='c12_sched.cpp', roots=roots, names=nm, types=t, boundary=BOUNDARY + list(boundary), lib=LIBS, spec=SPEC,
-             harness='h_' + name, enforce=alias, defines=['CV_HAS_%s_U 1' % alias], under_contract=[roots[0].strip('^$').replace('\\', '')])
+             harness='h_' + name, enforce=alias, defines=['CV_HAS_%s_U 1' % alias] + list(defines), under_contract=[roots[0].strip('^$').replace('\\', '')])
     d.update(kw)
     return d
 
@@ -51,5 +51,12 @@ UNITS = [
     unit('get_expired', 'sch_get_expired', [RX['get_expired'], RX['item_dtor']], names=dict(HEAP, sch_get_expired_lk=RX['get_expired_lk']), names_opt=VAR_NAMES, boundary=[VARX], types=T_EXPIRED, loop_contracts=True, object_bits=9),
     unit('remove', 'sch_remove', [RX['remove'], RX['remove_pred'], RX['item_dtor']], names=dict(HEAP, vec_find_if=RX['find_if'], vec_find_pred=RX['remove_pred']), loop_contracts=True, object_bits=10),
     unit('schedule', 'sch_schedule', [RX['schedule'], RX['item_move'], RX['item_dtor']], names=dict(HEAP, sch_item_move=RX['item_move'])),
+    unit('cancel_e', 'sch_cancel_e', [RX['cancel_e']], names={'sch_remove': RX['remove']}, names_opt={'pr_call_exc': RX['pr_call_exc'], 'sp_dtor': RX['sp_dtor']},
+         types=dict(T_SPB), boundary=[RX['remove']]),
+    unit('cancel', 'sch_cancel', [RX['cancel']], names={'sch_cancel_e': RX['cancel_e']}, types=dict(T_SPB), boundary=[RX['cancel_e']],
+         globals={'AWAIT_CANCELED_TI': '_ZTIN5cocls24await_canceled_exceptionE'}, defines=['C12_EXC_PRIMS 1']),
+    unit('sleep_until', 'sch_sleep_until', [RX['sleep_until']], names={'sch_schedule': RX['schedule']}, names_opt={'pr_ctor_future': RX['pr_ctor_future']},
+         types=dict(T_FUT), boundary=[RX['schedule']], defines=['PR_FUTURE_T FUT']),
+    unit('sleep_for', 'sch_sleep_for', [RX['sleep_for']], names={'sch_sleep_until': RX['sleep_until']}, types=dict(T_FUT), boundary=[RX['sleep_until'], r'^std::chrono::_V2::system_clock::now\(\)$']),
 ]
 META = {}
